@@ -5,6 +5,9 @@ import SelfiesVerif.Py
 
 namespace SV
 
+/-- the padding symbol -/
+abbrev nopSym : Str := "[nop]".toList
+
 /-- `len_selfies`: `selfies.count("[") + selfies.count(".")` -/
 def lenSelfies (s : Str) : Nat := s.count '[' + s.count '.'
 
